@@ -136,6 +136,16 @@ func RenderToString(tmpl string, lang string, data interface{}) (string, error) 
 	return buf.String(), nil
 }
 
+// sortedPacketNames returns the names of the packets in ascending order
+func sortedPacketNames(packets map[string]*model.Packet) []string {
+	names := make([]string, 0, len(packets))
+	for name := range packets {
+		names = append(names, name)
+	}
+	sort.Strings(names)
+	return names
+}
+
 // WriteCodeToFile write code to file
 func WriteCodeToFile(path string, codeMap map[string][]byte) error {
 	// in name order: what is on disk after a failure does not depend on the map's iteration order
